@@ -23,7 +23,11 @@ def _decode(R, rule, fn, domain, calls_for, args_for, expect, what, names):
     n = 0
     for pt in domain:
         try:
-            got = fold.Folder(fn, calls=calls_for(pt)).run(args_for(pt))
+            fo = fold.Folder(fn, calls=calls_for(pt), inline=True)
+            # the look-ups are replaced by coordinates, so one (year, month) stands for many months: nothing the routine may
+            # remember between calls carries over from one entry to the next (history is decided where real years are folded)
+            fo.statics = {}
+            got = fo.run(args_for(pt))
         except fold.Abort:
             got = "abort"
         except NotConst as e:
